@@ -163,10 +163,15 @@ ASSUMPTIONS = ["creating the temporary file and closing it (utils.py:281-282) is
 NOT_DECIDED = ["OS-level faults (disk full while writing the temp file is a raising call, covered; a crash of the process is not)"]
 
 
-def EXTRA():
+def _EXTRA0():
     from jvc import effects
     return effects.check_no_sticky_state(["thejoker.thejoker.TheJoker.marginal_ln_likelihood", "thejoker.thejoker.TheJoker.rejection_sample",
                                           "thejoker.thejoker.TheJoker.iterative_rejection_sample", "thejoker.thejoker.TheJoker._make_joker_helper",
                                           "thejoker.multiproc_helpers.rejection_sample_helper", "thejoker.multiproc_helpers.iterative_rejection_helper",
                                           "thejoker.multiproc_helpers.marginal_ln_likelihood_helper", "thejoker.multiproc_helpers.run_worker"]) + \
         [dict(r, name="C13/effects/" + r["name"]) for r in effects.check_module_state(["thejoker.utils", "thejoker.multiproc_helpers", "thejoker.likelihood_helpers"])]
+
+
+def EXTRA():
+    from . import chain as _CHX
+    return list(_EXTRA0()) + _CHX.frame_effects(PROPERTY) + __import__('jvc.effects', fromlist=['x']).check_pool_left_open(PROPERTY)
